@@ -6,7 +6,13 @@ with library operators; `random` is recorded with harness/tape.py and `toolbox.c
 wrapped to record the call trace.  The Lean model replays the recorded decisions (IEEE comparison of the
 recorded `random()` doubles with cxpb / cxpb+mutpb) with a scripted operator that reproduces the genomes the
 real operators produced, and must arrive at the same offspring oids, identity classes, genomes, fitness
-validity, parents and call trace.  The oracle evaluates the property statement on the real objects."""
+validity, parents and call trace.  The oracle evaluates the property statement on the real objects.
+
+Composed stream (`composed`: protocol ops `andc` / `orc`): the same real run is replayed by the COMPOSED model — model
+varAnd / varOr with the model operators of Core/VariationOps.lean (C09 / C10 operator models lifted to heap transformers,
+gp.staticLimit as a heap-level wrapper); the decision draws and the operators' own draws are both replayed from the
+tape, the operators compute the offspring genomes themselves, and genomes (real gene values), fitness validity, object
+names (input / j-th clone / allocated by an operator), parents and the call log must agree."""
 import array
 import copy
 import random
@@ -22,17 +28,22 @@ ANCHORS = [("deap/algorithms.py", ["varAnd", "varOr"]),
            ("deap/creator.py", []),
            ("deap/gp.py", ["PrimitiveTree.__deepcopy__"])]
 LEVEL = "proof"
-RULE = ("structured: every representation x every (mate, mutate) pair x (cxpb, mutpb) in the extremes "
+RULE = ("functional operators: every representation x all 8 combinations of returned-object identity x mutation in place / on a copy x varAnd, varOr; "
+        "structured: every representation x every (mate, mutate) pair x (cxpb, mutpb) in the extremes "
         "{(0,0),(1,0),(0,1),(1,1),(1/2,1/2)} x population sizes 0..4 for varAnd and varOr; random: sizes 0..8 "
         "(distinct / repeated / one object repeated; evaluated / unevaluated / mixed; duplicate genomes; bystander "
         "objects; extra mutable attributes), cxpb, mutpb in {0, 1, dyadics, 0.1-style decimals} with boundary draws "
-        "forced onto cxpb, cxpb+mutpb, 0 and 1-2^-53, lambda 0..10. Non-trivial = distinct case that returns at least one offspring")
+        "forced onto cxpb, cxpb+mutpb, 0 and 1-2^-53, lambda 0..10; every structured pair whose operators have a model is also replayed end to end "
+        "through the composed model (plain and decorated with gp.staticLimit on len / sum / height), as is about a third of the random cases. Non-trivial = distinct case that returns at least one offspring")
 EXHAUSTIVE = {"quick": False, "thorough": False}
 TIME_BUDGET = {"quick": 60, "thorough": 900}
-TRUSTED = ["operator contract: a registered mate/mutate returns its arguments or objects it created itself and writes no "
-           "other object (checked on every recorded call: identity of the returned objects, snapshots of all other known "
-           "objects); in-place library operators, copy-and-return / swapped-return wrappers, operators that assign the fitness of "
-           "what they produce (memetic / local-search) and gp.staticLimit are all exercised",
+TRUSTED = ["library operators: OpContract is PROVED for every operator model of C09/C10/C11 lifted in place and for gp.staticLimit around them "
+           "(C02.library_ops_meet_contract); that those models compute what deap.tools / deap.gp compute is the correspondence of C09/C10/C11 and of "
+           "the composed stream (model varAnd/varOr with the model operators, decision and operator tapes replayed, genomes compared)",
+           "other registered operators (user wrappers): operator contract — a registered mate/mutate returns its arguments or objects it created itself and "
+           "writes no other object (checked on every recorded call: identity of the returned objects, snapshots of all other known "
+           "objects); copy-and-return wrappers with every combination of returned-object identity, swapped-return wrappers and operators that assign the "
+           "fitness of what they produce (memetic / local-search) are all exercised",
            "toolbox.clone = copy.deepcopy produces an object with equal genome and fitness (checked by the oracle on "
            "every untouched offspring; C16 covers creator classes)",
            "IEEE-754 `<` and `+` of Lean `Float` equal CPython's (the recorded random() doubles are compared again)"]
@@ -41,8 +52,12 @@ ASSUMPTIONS = ["population of size >= 2 whenever varOr can take the crossover br
                "nodes of a gp.PrimitiveTree (Primitive / Terminal objects of the primitive set) are immutable symbols: "
                "deepcopy of a tree shares them by design, they are not counted as mutable state"]
 EXPLANATION = ("Theorems C02.* hold for every population (repeats included), every decision tape and every operator pair "
-               "meeting OpContract; the correspondence ties Core/Variation.lean to deap.algorithms.varAnd/varOr by "
-               "replaying recorded runs (oids, call trace, genomes, fitness validity, parents).")
+               "meeting OpContract; C02.library_ops_meet_contract proves OpContract for every library operator model (C09, "
+               "C10, C11 operators lifted in place, gp.staticLimit as a wrapper), so C02.varAnd_library_ops / varOr_library_ops "
+               "carry no operator hypothesis. The correspondence ties Core/Variation.lean to deap.algorithms.varAnd/varOr by "
+               "replaying recorded runs (oids, call trace, genomes, fitness validity, parents), once with scripted operators "
+               "(every representation and wrapper) and once end to end through the composed model (list / permutation / "
+               "float / ES individuals with the C09 and C10 operators, plain or decorated with gp.staticLimit).")
 
 REPS = ["list", "array", "numpy", "tree", "es", "perm"]
 OPS = {
@@ -170,6 +185,10 @@ def tree_tokens(tree):
     return [[n.name, n.value] if isinstance(type(n), gp.MetaEphemeral) else n.name for n in tree]
 
 
+def _isum(ind):
+    return sum(int(x) for x in ind)
+
+
 def wrap_ops(m, u, mwrap, uwrap, limit):
     """operators that do NOT return the objects they were given: `pure` = work on deep copies and return the copies
     (the arguments stay as they are, the children are new objects still carrying the parents' fitness), `swap` =
@@ -195,7 +214,18 @@ def wrap_ops(m, u, mwrap, uwrap, limit):
             for k, z in enumerate((x, y)):
                 z.fitness.values = tuple(float(7 + k + j) for j in range(len(z.fitness.weights)))
             return x, y
-    if uwrap in ("fitset", "purefit"):
+    elif mwrap == "id":
+        # "functional" crossover: the children are built from the arguments or from clones of them and every combination of
+        # returned-object identity occurs: code bit 0 = first slot works on a clone, bit 1 = second slot works on a clone,
+        # bit 2 = returned in the other order  ->  (a,b) (n,b) (a,n) (n,n') (b,a) (b,n) (n,a) (n',n)
+        def m(a, b, code=limit):
+            x, y = m0(copy.deepcopy(a) if code & 1 else a, copy.deepcopy(b) if code & 2 else b)
+            return (y, x) if code & 4 else (x, y)
+    elif mwrap in ("limlen", "limsum"):
+        m = gp.staticLimit(key=len if mwrap == "limlen" else _isum, max_value=limit)(m0)
+    if uwrap in ("limlen", "limsum"):
+        u = gp.staticLimit(key=len if uwrap == "limlen" else _isum, max_value=limit)(u0)
+    elif uwrap in ("fitset", "purefit"):
         def u(a):             # local-search mutation: assigns the fitness of its result
             z, = u0(copy.deepcopy(a)) if uwrap == "purefit" else u0(a)
             z.fitness.values = tuple(float(9 + j) for j in range(len(z.fitness.weights)))
@@ -424,6 +454,183 @@ class Recorder(object):
         return [d for i, d in enumerate(self.tp.draws) if i not in inside]
 
 
+# ------------------------------------------------------------------------------------------
+# the composed stream: protocol line and canonical answer
+# ------------------------------------------------------------------------------------------
+
+COMPOSED_FMT = {"list": "i", "perm": "i", "array": "f", "numpy": "f", "es": "e", "tree": "t"}
+COMPOSED_MUT = {"list": ["mutFlipBit", "mutShuffleIndexes", "mutUniformInt", "mutInversion"],
+                "perm": ["mutShuffleIndexes", "mutInversion"],
+                "array": ["mutGaussian", "mutShuffleIndexes", "mutPolynomialBounded", "mutInversion"],
+                "numpy": ["mutGaussian", "mutShuffleIndexes", "mutPolynomialBounded"],      # not mutFlipBit on floats
+                "es": ["mutESLogNormal"],
+                "tree": ["gp.mutUniform", "gp.mutNodeReplacement", "gp.mutShrink", "gp.mutInsert", "gp.mutEphemeral"]}
+
+
+def composable(d):
+    """can the composed model replay this case?  (operators with a model in Core/VariationOps.lean, wrappers none / gp.staticLimit
+    on len / sum)"""
+    if d["rep"] not in COMPOSED_FMT or d["mutate"] not in COMPOSED_MUT[d["rep"]]:
+        return False
+    for key in ("mwrap", "uwrap"):
+        if d["rep"] == "tree":
+            if d.get(key) not in (None, "limit"):
+                return False
+            continue
+        if d.get(key) not in (None, "limlen", "limsum"):
+            return False
+        if d.get(key) == "limsum" and COMPOSED_FMT[d["rep"]] != "i":
+            return False
+        if d.get(key) and d["rep"] == "es":
+            return False      # len() of an ES individual is not the length of its one-genome coding
+
+    return True
+
+
+def _sb(x):
+    return "s" + fbits(x)
+
+
+def composed_specs(d):
+    ip = fbits(d.get("indpb", 0.5))
+    mate = {"cxOnePoint": "cxOnePoint", "cxTwoPoint": "cxTwoPoint", "cxTwoPointCopy": "cxTwoPoint",
+            "cxUniform": "cxUniform/" + ip, "cxMessyOnePoint": "cxMessyOnePoint",
+            "cxBlend": "cxBlend/" + fbits(0.5), "cxSimulatedBinary": "cxSimulatedBinary/" + fbits(2.0),
+            "cxSimulatedBinaryBounded": "cxSimulatedBinaryBounded/%s/%s/%s" % (fbits(2.0), _sb(-10.0), _sb(10.0)),
+            "cxPartialyMatched": "cxPartialyMatched", "cxUniformPartialyMatched": "cxUniformPartialyMatched/" + ip,
+            "cxOrdered": "cxOrdered", "cxESBlend": "cxESBlend/" + fbits(0.5), "cxESTwoPoint": "cxESTwoPoint",
+            "gp.cxOnePoint": "gp.cxOnePoint", "gp.cxOnePointLeafBiased": "gp.cxOnePointLeafBiased/" + fbits(0.1)}[d["mate"]]
+    mut = {"mutFlipBit": "mutFlipBit/" + ip, "mutShuffleIndexes": "mutShuffleIndexes/" + ip,
+           "mutUniformInt": "mutUniformInt/s0/s3/" + ip, "mutInversion": "mutInversion",
+           "mutGaussian": "mutGaussian/%s/%s/%s" % (_sb(0.0), _sb(1.0), ip),
+           "mutPolynomialBounded": "mutPolynomialBounded/%s/%s/%s/%s" % (fbits(2.0), _sb(-10.0), _sb(10.0), ip),
+           "mutESLogNormal": "mutESLogNormal/%s/%s" % (fbits(1.0), ip),
+           "gp.mutUniform": "gp.mutUniform/full/0/2", "gp.mutNodeReplacement": "gp.mutNodeReplacement",
+           "gp.mutShrink": "gp.mutShrink", "gp.mutInsert": "gp.mutInsert", "gp.mutEphemeral": "gp.mutEphemeral/all"}[d["mutate"]]
+
+    def lim(w):
+        return "-" if not w else "%s/%d" % ({"limlen": "len", "limsum": "sum", "limit": "height"}[w], d.get("limit", 1))
+    return mate, lim(d.get("mwrap")), mut, lim(d.get("uwrap"))
+
+
+def node_tok(n):
+    """a node of the (loosely typed: every type is `object` = type id 0) primitive set, as in the C11 protocol"""
+    if isinstance(n, gp.Primitive):
+        return "%s:0:%s:p:" % (n.name, ".".join("0" for _ in n.args))
+    if type(n) is gp.MetaEphemeral:          # the class, inside a pool
+        return "%s:0::e:" % n.name
+    if type(type(n)) is gp.MetaEphemeral:    # an instance
+        return "%s:0::e:%s" % (n.name, n.format())
+    return "%s:0::t:%s" % (n.name, n.format())
+
+
+def pset_tok():
+    def pool(dd):
+        return ";".join("0=%s" % ",".join(node_tok(x) for x in l) for t, l in dd.items() if t is object) or "-"
+    return "0.0 %s %s 0 %d %d" % (pool(PSET.primitives), pool(PSET.terminals), PSET.terms_count, PSET.prims_count)
+
+
+def gp_tape(rec):
+    """the operators' draws as a GP tape of the C11 protocol (arguments included: the model checks them)"""
+    inside = set()
+    for a, b in rec.ranges:
+        inside.update(range(a, b))
+    out, err = [], None
+    for i, x in enumerate(rec.tp.draws):
+        if i not in inside:
+            continue
+        if x[0] == "random":
+            out.append("r" + fbits(x[1])[2:])
+        elif x[0] == "randint":
+            out.append("i%d.%d.%d" % (x[1], x[2], x[3]))
+        elif x[0] == "randrange":
+            a = x[1]
+            lo, hi = (0, a[0]) if len(a) == 1 else (a[0], a[1])
+            out.append("g%d.%d.%d" % (lo, hi, x[2]))
+        elif x[0] == "choice":
+            out.append("c%d.%d" % (x[1], x[2]))
+        else:
+            err = "a GP operator made a random call the composed model does not know: %r" % (x[:1],)
+    return out, err
+
+
+def cgenes(fmt, ind):
+    if fmt == "t":
+        g = [node_tok(n) for n in ind]
+    elif fmt == "i":
+        g = [str(int(x)) for x in ind]
+    elif fmt == "f":
+        g = [fbits(x) for x in ind]
+    else:
+        g = [str(len(ind))] + [fbits(x) for x in ind] + [fbits(x) for x in ind.strategy]
+    return ",".join(g) if g else "-"
+
+
+def cfit(ind):
+    f = ind.fitness
+    return ",".join(str(int(v)) for v in f.values) if f.valid else "none"
+
+
+def op_tape(rec):
+    """the draws made inside the operator calls (gp.staticLimit's random.choice included), in call order"""
+    inside = set()
+    for a, b in rec.ranges:
+        inside.update(range(a, b))
+    toks, err = [], None
+    for i, x in enumerate(rec.tp.draws):
+        if i not in inside:
+            continue
+        if x[0] == "random":
+            toks.append("r:" + fbits(x[1]))
+        elif x[0] == "randint":
+            toks.append("i:%d" % x[3])
+        elif x[0] == "randrange":
+            toks.append("i:%d" % x[2])
+        elif x[0] == "sample":
+            toks.extend("i:%d" % j for j in x[3])
+        elif x[0] == "choice":
+            toks.append("i:%d" % x[2])
+        elif x[0] == "gauss":
+            toks.append("g:" + fbits(x[3]))
+        else:
+            err = "an operator made a random call the composed model does not know: %r" % (x[:1],)
+    return toks, err
+
+
+def composed_case(d, rec, inds, heap0, out, dec_tokens, cxpb, mutpb, lam):
+    """protocol line for `andc` / `orc` and the implementation's canonical answer"""
+    fmt = COMPOSED_FMT[d["rep"]]
+    clones = {}
+    for e in rec.events:
+        if e[0] == "c":
+            clones[int(e.split(">")[1])] = len(clones)
+
+    def name(k):
+        return "p%d" % k if k < rec.n0 else ("k%d" % clones[k] if k in clones else "x")
+
+    def ev(e):
+        if e[0] == "c":
+            return "c" + name(int(e[1:].split(">")[0]))
+        if e[0] == "m":
+            a, b = e[1:].split("&")
+            return "m%s&%s" % (name(int(a)), name(int(b)))
+        return "u" + name(int(e[1:]))
+    heap_tok = ";".join("%s|%s" % gf for gf in heap0) if heap0 else "-"
+    ot, err = gp_tape(rec) if fmt == "t" else op_tape(rec)
+    mate, mlim, mut, ulim = composed_specs(d)
+    head = "C02 andc %s %s %s %s %s" if d["fn"] == "and" else "C02 orc %s %s %s " + str(lam) + " %s %s"
+    line = (head + " %s %s %s %s %s %s") % (fmt, sl(d["pop"]), heap_tok, fbits(cxpb), fbits(mutpb), sl(dec_tokens),
+                                           mate, mlim, mut, ulim, sl(ot))
+    if fmt == "t":
+        line += " " + pset_tok()
+    ids = [id(o) for o in out]
+    ans = "off=%s dup=%d objs=%s par=%s log=%s rest=0" % (
+        sl(name(rec.of(o)) for o in out), 0 if len(set(ids)) == len(ids) else 1,
+        "".join(" o %s %s" % (cgenes(fmt, o), cfit(o)) for o in out),
+        "".join(" o %s %s" % (cgenes(fmt, x), cfit(x)) for x in inds), sl(ev(e) for e in rec.events))
+    return line, ans, err
+
+
 class BiasedRandom(object):
     """random.Random whose random() sometimes lands exactly on a branch boundary"""
 
@@ -482,6 +689,8 @@ def evaluate(d):
         rng = random.Random(d["seed"])
     before = [snap(x) for x in inds]
     before_pop = [snap(x) for x in pop]
+    composed = bool(d.get("composed")) and composable(d)
+    heap0 = [(cgenes(COMPOSED_FMT[rep], x), cfit(x)) for x in inds] if composed else None
     with tapemod.Tape(rng=rng) as tp:
         rec = Recorder(tp, inds)
         heap_tok = ";".join(rec.obj(x) for x in inds) if inds else "-"
@@ -519,6 +728,10 @@ def evaluate(d):
             else:
                 tape_err = "varOr made a random call the model does not know: %r" % (x,)
         line = "C02 or %s %s %d %s %s %s %s" % (pops, heap_tok, lam, fbits(cxpb), fbits(mutpb), sl(toks), script)
+    if composed:
+        dec = [fbits(x[1]) for x in draws] if fn == "and" else toks
+        line, cans, cerr = composed_case(d, rec, inds, heap0, out if not asserted else [], dec, cxpb, mutpb, lam)
+        tape_err = tape_err or cerr
     if asserted:
         inside = cxpb + mutpb <= 1.0
         return Case(d, [line], ["assert"], "AssertionError although cxpb + mutpb <= 1" if inside else None,
@@ -538,6 +751,8 @@ def evaluate(d):
         ";".join(rec.obj(x) for x in inds) if inds else "-", sl(rec.events))
     if rec.contract:
         ans = "operator-contract-violated: " + rec.contract
+    elif composed:
+        ans = cans
 
     # ---- oracle: the statement, on the real objects -----------------------------------------
     orc = None
@@ -621,8 +836,9 @@ def evaluate(d):
         return Case(d, ["C02 tape-error"], ["TAPE: " + tape_err], orc, tag="%s/%s/tape-error" % (fn, rep), nontrivial=False)
     rpt = "/rpt" if len(set(d["pop"])) < len(d["pop"]) else ""
     wr = "/%s-%s" % (d.get("mwrap") or "inplace", d.get("uwrap") or "inplace") if (d.get("mwrap") or d.get("uwrap")) else ""
-    tag = "%s/%s/%s%s%s%s" % (fn, rep, br or "none", rpt, wr, "/dupret" if rec.dupret else "")
-    return Case(d, [line], [ans], orc, tag=tag, nontrivial=len(out) > 0)
+    tag = "%s%s/%s/%s%s%s%s" % (fn, "-composed" if composed else "", rep, br or "none", rpt, wr, "/dupret" if rec.dupret else "")
+    return Case(d, [line], [ans], orc, tag=tag, nontrivial=len(out) > 0,
+                tol=1e-9 if composed and COMPOSED_FMT[rep] != "i" else None)
 
 
 # ------------------------------------------------------------------------------------------
@@ -646,7 +862,7 @@ def mk_fit(rng, fk):
     return [rng.randint(-3, 3) for _ in range(2 if fk == "mo" else 1)]
 
 
-def mk_case(rng, fn=None, rep=None, n=None, probs=None, mate=None, mutate=None, lam=None, wrap=None):
+def mk_case(rng, fn=None, rep=None, n=None, probs=None, mate=None, mutate=None, lam=None, wrap=None, composed=None):
     fn = fn or rng.choice(["and", "or"])
     rep = rep or rng.choice(REPS)
     fk = rng.choice(["max", "max", "mo", "cmax"])
@@ -706,13 +922,30 @@ def mk_case(rng, fn=None, rep=None, n=None, probs=None, mate=None, mutate=None, 
          "mate": mate or rng.choice(mates), "mutate": mutate or rng.choice(muts),
          "indpb": rng.choice([0.0, 0.5, 0.5, 1.0]), "seed": rng.getrandbits(32), "bias": rng.random() < 0.35}
     if wrap is None:
-        wrap = rng.random() < 0.35
-    if wrap:
-        d["mwrap"] = rng.choice([None, "pure", "pure", "swap", "pureswap", "half", "fitset", "purefit"] +
+        r = rng.random()
+        wrap = True if r < 0.3 else ("lim" if r < 0.45 and rep not in ("tree", "es") else False)
+    if wrap == "treelim":
+        d["mwrap"], d["uwrap"] = rng.choice([("limit", None), (None, "limit"), ("limit", "limit")])
+        d["limit"] = rng.choice([0, 1, 1, 2])
+    elif wrap == "lim":
+        # gp.staticLimit on a list-like individual (key = len, or sum for integer genes)
+        keys = ["limlen"] + (["limsum"] if rep in ("list", "perm") else [])
+        d["mwrap"], d["uwrap"] = rng.choice([(rng.choice(keys), None), (None, rng.choice(keys)), (rng.choice(keys),) * 2])
+        d["limit"] = rng.randint(1, 6) if "limlen" in (d["mwrap"], d["uwrap"]) else rng.randint(0, 12)
+    elif wrap:
+        d["mwrap"] = rng.choice([None, "pure", "pure", "swap", "pureswap", "half", "fitset", "purefit", "id"] +
                                 (["limit", "limit"] if rep == "tree" else []))
         d["uwrap"] = rng.choice([None, "pure", "pure", "fitset", "fitset", "purefit"] + (["limit", "limit"] if rep == "tree" else []))
-        if "limit" in (d["mwrap"], d["uwrap"]):
+        if d["mwrap"] == "id":
+            d["limit"] = rng.randrange(8)
+            if d["uwrap"] == "limit":
+                d["uwrap"] = "pure"
+        elif "limit" in (d["mwrap"], d["uwrap"]):
             d["limit"] = rng.choice([0, 1, 1, 2])
+    if composed is None:
+        composed = rng.random() < 0.5
+    if composed and composable(d):
+        d["composed"] = True
     if fn == "or":
         d["lam"] = (rng.randint(0, 10) if lam is None else lam) if pop else 0
     return d
@@ -721,18 +954,38 @@ def mk_case(rng, fn=None, rep=None, n=None, probs=None, mate=None, mutate=None, 
 def generate(tier, rng, mult):
     thorough = tier == "thorough"
     extremes = [(0.0, 0.0), (1.0, 0.0), (0.0, 1.0), (1.0, 1.0), (0.5, 0.5)]
+    # stream 1: "functional" operators — children built from the arguments or from clones of them, with EVERY combination
+    # of returned-object identity ((a,b) (n,b) (a,n) (n,n') and the four swapped orders) x mutation in place / on a copy
+    for rep in REPS:
+        for code in range(8):
+            for uw in (None, "pure"):
+                for fn, prs in (("and", [(1.0, 1.0), (0.5, 0.5)]), ("or", [(1.0, 0.0), (0.5, 0.5)])):
+                    for pr in prs:
+                        d = mk_case(rng, fn, rep, rng.choice([2, 3, 4, 5]), pr, wrap=False, composed=False,
+                                    lam=rng.choice([2, 3, 5]))
+                        d["mwrap"], d["uwrap"], d["limit"] = "id", uw, code
+                        yield d
+    # stream 2: every representation x every operator pair x the extreme probabilities x small sizes: the trace replay
+    # (scripted operators) and, where the operators have a model, the composed replay (model operators), plain and
+    # decorated with gp.staticLimit
     for rep in REPS:
         mates, muts = OPS[rep]
         for mate in mates:
             for mutate in muts:
                 for pr in extremes:
                     for n in range(0, 5 if thorough else 4):
-                        yield mk_case(rng, "and", rep, n, pr, mate, mutate, wrap=False)
+                        yield mk_case(rng, "and", rep, n, pr, mate, mutate, wrap=False, composed=False)
                         if n >= 1 and pr != (0.0, 0.0):
-                            yield mk_case(rng, "and", rep, n, pr, mate, mutate, wrap=True)
+                            yield mk_case(rng, "and", rep, n, pr, mate, mutate, wrap=True, composed=False)
                         if pr != (1.0, 1.0) or n == 2:
                             yield mk_case(rng, "or", rep, n, pr, mate, mutate, lam=rng.choice([1, 2, 3, 5]),
-                                          wrap=(n >= 2 and rng.random() < 0.5))
+                                          wrap=(n >= 2 and rng.random() < 0.5), composed=False)
+                        if n >= 2 and pr != (0.0, 0.0) and rep in COMPOSED_FMT and mutate in COMPOSED_MUT[rep]:
+                            lim = ("treelim" if rep == "tree" else "lim") if rep != "es" and n == 3 else False
+                            yield mk_case(rng, "and", rep, n, pr, mate, mutate, wrap=lim, composed=True)
+                            if pr != (1.0, 1.0):
+                                yield mk_case(rng, "or", rep, n, pr, mate, mutate, lam=rng.choice([2, 3, 5]), wrap=lim,
+                                              composed=True)
     for _ in range((150000 if thorough else 5000) * mult):
         yield mk_case(rng)
 
